@@ -1,6 +1,465 @@
-import Summer.Model.Run
--- placeholder until the proof worker delivers (replaced by the real file)
-namespace Summer.Props.C08
-theorem placeholder : True := trivial
-end Summer.Props.C08
-#print axioms Summer.Props.C08.placeholder
+import Summer.Proofs.Derived
+/-
+C08 — each derived output equals its definition applied to the solved trajectory.
+
+Model: `Summer.Derived` (`evalRequest`, `evalAll`, `derivedOutputs`, `flowsForOutputs`).
+Specification: `Summer/Spec/Derived.lean` (`compOutputAt`, `flowOutputAt`, `midpointAt`, `aggAt`,
+`cumAt`, `funcEnv`, `SourcesAre`, `DistinctNames`, `RunData.WF`), written from the documentation of the
+`request_*` methods and independent of the index lists the runner builds.
+
+All theorems hold for every model, any number of times / compartments / flows / requests, every
+strata filter, over an arbitrary ordered field — in fact over any field carrying a linear order (the
+compatibility of the order with the arithmetic, `IsStrictOrderedRing`, is never needed, so it is not
+assumed; every ordered field, e.g. `Rat`, is an instance).
+-/
+namespace Summer.C08
+open Summer Summer.Run Summer.Derived Summer.Spec Summer.Proofs Summer.Proofs.DerivedL
+
+variable {α : Type} [Field α] [LinearOrder α]
+
+/-! ## 1. per-kind definitions -/
+
+/-- Compartment output: one entry per output row; entry `i` is the sum, over the compartments of the
+model whose name is requested and whose strata contain the filter, of that compartment's value in
+output row `i`.  Never fails; no hypotheses. -/
+theorem comp (m : Model α) (d : RunData α) (done : List (String × List α)) (names : List String)
+    (flt : Strata) :
+    ∃ s, evalRequest m d done (.comp names flt) = some s ∧ s.length = d.outputs.length ∧
+      ∀ i, i < d.outputs.length → s.getD i 0 = compOutputAt m names flt (d.outputs.getD i []) :=
+  ⟨_, evalRequest_comp m d done names flt, sumCols_length _ _,
+    fun i hi => sumCols_comp_getD m d.outputs names flt i hi⟩
+
+/-- Raw flow output: entry `i` is the sum of the rates (row `i` of the flow-rate table) of the flows
+with the requested name whose source (if any) satisfies the source filter and whose destination (if
+any) satisfies the destination filter.  Never fails; no hypotheses. -/
+theorem flow_raw (m : Model α) (d : RunData α) (done : List (String × List α)) (name : String)
+    (ss ds : Strata) :
+    ∃ s, evalRequest m d done (.flow name ss ds true) = some s ∧ s.length = d.flows.length ∧
+      ∀ i, i < d.flows.length → s.getD i 0 = flowOutputAt m name ss ds (d.flows.getD i []) :=
+  ⟨_, evalRequest_flow m d done name ss ds true, sumCols_length _ _,
+    fun i hi => sumCols_flow_getD m d.flows name ss ds i hi⟩
+
+/-- Non-raw flow output: same length as the raw output; the first value is the raw value, every later
+value is the mean of the raw value and its predecessor. -/
+theorem flow_midpoint (m : Model α) (d : RunData α) (done : List (String × List α)) (name : String)
+    (ss ds : Strata) :
+    ∃ raw s, evalRequest m d done (.flow name ss ds true) = some raw ∧
+      evalRequest m d done (.flow name ss ds false) = some s ∧
+      s.length = raw.length ∧ s.getD 0 0 = raw.getD 0 0 ∧
+      (∀ i, i + 1 < raw.length → s.getD (i + 1) 0 = (raw.getD (i + 1) 0 + raw.getD i 0) * (1 / 2)) ∧
+      ∀ i, i < raw.length → s.getD i 0 = midpointAt raw i := by
+  refine ⟨_, _, evalRequest_flow m d done name ss ds true, evalRequest_flow m d done name ss ds false,
+    midpoint_length _, midpoint_getD_zero _, fun i hi => ?_, fun i hi => midpoint_getD _ i hi⟩
+  simp only [Bool.false_eq_true, if_false, if_true] at hi ⊢
+  rw [midpoint_getD_succ _ i hi, two, one_add_one_eq_two]
+
+/-- Aggregate output: when the named sources are found among the earlier results (`SourcesAre`) and
+have one entry per time, entry `i` is the sum of the sources' `i`-th entries. -/
+theorem agg (m : Model α) (d : RunData α) (done : List (String × List α)) (sources : List String)
+    (srcs : List (List α)) (hsrc : SourcesAre done sources srcs)
+    (hlen : ∀ s ∈ srcs, s.length = d.times.length) :
+    ∃ s, evalRequest m d done (.agg sources) = some s ∧ s.length = d.times.length ∧
+      ∀ i, i < d.times.length → s.getD i 0 = aggAt srcs i := by
+  refine ⟨aggSeries d.times.length srcs, ?_, (aggSeries_spec _ srcs hlen).1, (aggSeries_spec _ srcs hlen).2⟩
+  rw [evalRequest_agg, (sourcesAre_iff done sources srcs).2 hsrc]; rfl
+
+/-- Cumulative output without a start time: the running sum of the source. -/
+theorem cum (m : Model α) (d : RunData α) (done : List (String × List α)) (source : String) (src : List α)
+    (hsrc : alookup done source = some src) :
+    ∃ s, evalRequest m d done (.cum source none) = some s ∧ s.length = src.length ∧
+      ∀ i, i < src.length → s.getD i 0 = sumFromTo src 0 i := by
+  refine ⟨cumsum src, ?_, cumsum_length src, fun i hi => cumsum_getD src i hi⟩
+  rw [evalRequest_cum_none, hsrc]; rfl
+
+/-- Cumulative output with a start time that is the `k`-th model time (times strictly increasing):
+zero before index `k`, the running sum from index `k` afterwards (`cumAt`). -/
+theorem cum_start (m : Model α) (d : RunData α) (done : List (String × List α)) (source : String)
+    (src : List α) (hsrc : alookup done source = some src) (hsorted : d.times.Pairwise (· < ·))
+    (k : Nat) (hk : k < d.times.length) (st : α) (hst : d.times[k] = st) :
+    ∃ s, evalRequest m d done (.cum source (some st)) = some s ∧ s.length = src.length ∧
+      (∀ i, i < src.length → s.getD i 0 = cumAt src k i) ∧
+      (∀ i, i < src.length → i < k → s.getD i 0 = 0) ∧
+      (∀ i, i < src.length → k ≤ i → s.getD i 0 = sumFromTo src k i) := by
+  have hget : ∀ i, i < src.length → (cumFrom k src).getD i 0 = cumAt src k i :=
+    fun i hi => cumFrom_getD k src i hi
+  refine ⟨cumFrom k src, ?_, cumFrom_length k src, hget, fun i hi hik => ?_, fun i hi hik => ?_⟩
+  · rw [evalRequest_cum_some, hsrc, Option.bind_some]
+    have he : effStart d.times st = st := by
+      apply effStart_of_le
+      intro tmax hl ⟨_, hlt⟩
+      have := le_last_of_sorted d.times hsorted tmax hl k hk
+      rw [hst] at this
+      exact absurd hlt (not_lt.2 this)
+    rw [he, ← hst, startIdx_of_sorted d.times hsorted k hk]; rfl
+  · rw [hget i hi, cumAt, if_pos hik]
+  · rw [hget i hi, cumAt, if_neg (by omega)]
+
+/-- A non-zero start time beyond the last model time is replaced by the last model time. -/
+theorem cum_clamped (m : Model α) (d : RunData α) (done : List (String × List α)) (source : String)
+    (st tmax : α) (hlast : d.times.getLast? = some tmax) (hnz : st ≠ 0) (hgt : tmax < st) :
+    evalRequest m d done (.cum source (some st)) = evalRequest m d done (.cum source (some tmax)) := by
+  rw [evalRequest_cum_some, evalRequest_cum_some, effStart_clamp d.times st tmax hlast hnz hgt,
+    effStart_of_le d.times tmax (fun t ht => by
+      rw [hlast] at ht; cases ht; exact fun h => absurd h.2 (lt_irrefl _))]
+
+/-- consequently (times strictly increasing) only the last entry accumulates -/
+theorem cum_clamped_values (m : Model α) (d : RunData α) (done : List (String × List α)) (source : String)
+    (src : List α) (hsrc : alookup done source = some src) (hsorted : d.times.Pairwise (· < ·))
+    (st tmax : α) (hlast : d.times.getLast? = some tmax) (hnz : st ≠ 0) (hgt : tmax < st) :
+    ∃ s, evalRequest m d done (.cum source (some st)) = some s ∧ s.length = src.length ∧
+      ∀ i, i < src.length → s.getD i 0 = cumAt src (d.times.length - 1) i := by
+  rw [cum_clamped m d done source st tmax hlast hnz hgt]
+  have hne : d.times ≠ [] := by intro h; simp [h] at hlast
+  have hpos : 0 < d.times.length := List.length_pos_iff.2 hne
+  have hk : d.times.length - 1 < d.times.length := by omega
+  have hst : d.times[d.times.length - 1] = tmax := by
+    rw [List.getLast?_eq_getElem?, List.getElem?_eq_getElem hk] at hlast
+    exact Option.some.inj hlast
+  obtain ⟨s, h1, h2, h3, _⟩ := cum_start m d done source src hsrc hsorted _ hk tmax hst
+  exact ⟨s, h1, h2, h3⟩
+
+/-- A start time that is not a model time (and is not clamped) makes the request undefined (the code
+raises `AssertionError`); so does a missing source. -/
+theorem cum_not_time (m : Model α) (d : RunData α) (done : List (String × List α)) (source : String)
+    (st : α) (hnot : st ∉ d.times)
+    (hnc : ∀ tmax, d.times.getLast? = some tmax → ¬ (st ≠ 0 ∧ tmax < st)) :
+    evalRequest m d done (.cum source (some st)) = none := by
+  rw [evalRequest_cum_some, effStart_of_le d.times st hnc, startIdx_none d.times st hnot]
+  cases alookup done source <;> rfl
+
+/-- Function output: given its sources, the request is defined exactly when the expression can be
+evaluated at every time, and entry `i` is the value of the expression in the environment
+`time := times[i]`, `state := [src₀[i], src₁[i], …]`, `params := d.params`. -/
+theorem func (m : Model α) (d : RunData α) (done : List (String × List α)) (e : Expr α)
+    (sources : List String) (srcs : List (List α)) (hsrc : SourcesAre done sources srcs) (s : List α) :
+    evalRequest m d done (.func e sources) = some s ↔
+      s.length = d.times.length ∧
+        ∀ i, i < d.times.length → e.eval (funcEnv d srcs i) = some (s.getD i 0) := by
+  rw [evalRequest_func, (sourcesAre_iff done sources srcs).2 hsrc, Option.bind_some, mapM_some_iff]
+  simp only [List.length_range, List.getElem_range]
+  constructor
+  · rintro ⟨h1, h2⟩
+    exact ⟨h1, fun i hi => by rw [h2 i hi (by omega), getD_eq_getElem]⟩
+  · rintro ⟨h1, h2⟩
+    exact ⟨h1, fun i hi hi' => by rw [h2 i hi, getD_eq_getElem]⟩
+
+/-- Computed-value output: the series recorded for that computed value. -/
+theorem cv (m : Model α) (d : RunData α) (done : List (String × List α)) (name : String) :
+    evalRequest m d done (.cv name) = alookup d.computed name :=
+  evalRequest_cv m d done name
+
+/-- Every derived series has one entry per model time, provided the trajectory tables do
+(`RunData.WF`) and the earlier results do.  This discharges the length hypothesis of `agg`. -/
+theorem series_length (m : Model α) (d : RunData α) (hd : RunData.WF d) (done : List (String × List α))
+    (hdone : ∀ kv ∈ done, kv.2.length = d.times.length) (r : Request α) (s : List α)
+    (h : evalRequest m d done r = some s) : s.length = d.times.length :=
+  evalRequest_length m d hd done hdone r s h
+
+/-! ## 2. the flow-rate and computed-value tables -/
+
+/-- `get_flows_for_outputs`: there is one row per (time, output row) pair; row `i` is the flow-rate
+vector of the model's right-hand side evaluated at the `i`-th output row and the `i`-th time; the
+`j`-th computed-value series carries the name of the `j`-th computed value and its entry `i` is that
+expression evaluated at `⟨params, times[i], cleanV outputs[i]⟩`. -/
+theorem flow_rows (m : Model α) (b : Backend) (params : List (String × α)) (times : List α)
+    (outputs rows : List (List α)) (cvs : List (String × List α))
+    (h : flowsForOutputs m b params times outputs = some (rows, cvs)) :
+    rows.length = min times.length outputs.length ∧
+    (∀ i (ht : i < times.length) (ho : i < outputs.length),
+      ∃ s, step m b params times[i] outputs[i] = some s ∧ rows.getD i [] = s.flowRates) ∧
+    cvs.length = m.computed.length ∧
+    (∀ j (hj : j < m.computed.length), ∃ series,
+      cvs[j]? = some (m.computed[j].1, series) ∧
+      series.length = min times.length outputs.length ∧
+      ∀ i (ht : i < times.length) (ho : i < outputs.length),
+        m.computed[j].2.eval ⟨params, times[i], cleanV outputs[i]⟩ = some (series.getD i 0)) := by
+  obtain ⟨rs, h1, h2, h3⟩ := (flowsForOutputs_iff m b params times outputs (rows, cvs)).1 h
+  simp only [Prod.mk.injEq] at h3
+  obtain ⟨hr, hc⟩ := h3
+  subst hr hc
+  refine ⟨by simpa using h1, fun i ht ho => ?_, by simp, fun j hj => ?_⟩
+  · have hi : i < rs.length := by omega
+    obtain ⟨s, hs1, hs2, _⟩ := h2 i ht ho hi
+    exact ⟨s, hs1, by simp [List.getD_eq_getElem?_getD, hi, hs2]⟩
+  · refine ⟨rs.map (fun r => r.2.getD j 0), by simp [hj], by simpa using h1, fun i ht ho => ?_⟩
+    have hi : i < rs.length := by omega
+    obtain ⟨s, _, _, hs3⟩ := h2 i ht ho hi
+    obtain ⟨hl, hv⟩ := (mapM_some_iff _ _ _).1 hs3
+    have := hv j hj (by omega)
+    simp only [this, List.getD_eq_getElem?_getD, List.getElem?_map, List.getElem?_eq_getElem hi,
+      Option.map_some, Option.getD_some, List.getElem?_eq_getElem (show j < rs[i].2.length by omega)]
+
+/-- conversely the tables are defined whenever every evaluation they need is -/
+theorem flow_rows_defined (m : Model α) (b : Backend) (params : List (String × α)) (times : List α)
+    (outputs : List (List α))
+    (hstep : ∀ i (ht : i < times.length) (ho : i < outputs.length),
+      (step m b params times[i] outputs[i]).isSome = true)
+    (hcv : ∀ i (ht : i < times.length) (ho : i < outputs.length), ∀ kv ∈ m.computed,
+      (kv.2.eval ⟨params, times[i], cleanV outputs[i]⟩).isSome = true) :
+    (flowsForOutputs m b params times outputs).isSome = true := by
+  rw [flowsForOutputs_eq, Option.isSome_map]
+  apply mapM_isSome
+  intro ty hty
+  obtain ⟨i, hi, rfl⟩ := List.mem_iff_getElem.1 hty
+  simp only [List.length_zip] at hi
+  simp only [List.getElem_zip]
+  obtain ⟨s, hs⟩ := Option.isSome_iff_exists.1 (hstep i (by omega) (by omega))
+  obtain ⟨c, hc⟩ := Option.isSome_iff_exists.1
+    (mapM_isSome _ m.computed (fun kv hkv => hcv i (by omega) (by omega) kv hkv))
+  exact Option.isSome_iff_exists.2 ⟨(s.flowRates, c), (rowOut_some m b params _ _).2 ⟨s, hs, rfl, hc⟩⟩
+
+/-- `flow_raw` and `flow_rows` composed: when the flow table of the run data is the one produced by
+`flowsForOutputs`, entry `i` of a raw flow output is the sum over the selected flows of their rates
+in the evaluation of the right-hand side at the `i`-th time and `i`-th output row. -/
+theorem flow_raw_run (m : Model α) (b : Backend) (params : List (String × α)) (d : RunData α)
+    (cvs : List (String × List α))
+    (h : flowsForOutputs m b params d.times d.outputs = some (d.flows, cvs))
+    (done : List (String × List α)) (name : String) (ss ds : Strata) :
+    ∃ s, evalRequest m d done (.flow name ss ds true) = some s ∧
+      s.length = min d.times.length d.outputs.length ∧
+      ∀ i (ht : i < d.times.length) (ho : i < d.outputs.length),
+        ∃ st, step m b params d.times[i] d.outputs[i] = some st ∧
+          s.getD i 0 = flowOutputAt m name ss ds st.flowRates := by
+  obtain ⟨hlen, hrow, _, _⟩ := flow_rows m b params d.times d.outputs d.flows cvs h
+  obtain ⟨s, h1, h2, h3⟩ := flow_raw m d done name ss ds
+  refine ⟨s, h1, by omega, fun i ht ho => ?_⟩
+  obtain ⟨st, hs1, hs2⟩ := hrow i ht ho
+  exact ⟨st, hs1, by rw [h3 i (by omega), hs2]⟩
+
+/-- `cv` and `flow_rows` composed (computed-value names pairwise distinct, as dict keys are): the
+output requested for the `j`-th computed value is that expression evaluated at each time and cleaned
+output row. -/
+theorem cv_run (m : Model α) (b : Backend) (params : List (String × α)) (d : RunData α)
+    (rows : List (List α))
+    (h : flowsForOutputs m b params d.times d.outputs = some (rows, d.computed))
+    (hnd : (m.computed.map (·.1)).Nodup) (done : List (String × List α)) (j : Nat) (hj : j < m.computed.length) :
+    ∃ s, evalRequest m d done (.cv m.computed[j].1) = some s ∧
+      s.length = min d.times.length d.outputs.length ∧
+      ∀ i (ht : i < d.times.length) (ho : i < d.outputs.length),
+        m.computed[j].2.eval ⟨params, d.times[i], cleanV d.outputs[i]⟩ = some (s.getD i 0) := by
+  obtain ⟨_, _, hlen, hcv⟩ := flow_rows m b params d.times d.outputs rows d.computed h
+  obtain ⟨series, h1, h2, h3⟩ := hcv j hj
+  refine ⟨series, ?_, h2, h3⟩
+  have hj' : j < d.computed.length := by omega
+  have hnames : d.computed.map (·.1) = m.computed.map (·.1) := by
+    apply List.ext_getElem (by simp [hlen])
+    intro k hk hk'
+    simp only [List.length_map] at hk hk'
+    obtain ⟨sk, hk1, _⟩ := hcv k hk'
+    rw [List.getElem?_eq_getElem hk] at hk1
+    simp only [List.getElem_map, Option.some.inj hk1]
+  rw [List.getElem?_eq_getElem hj'] at h1
+  have := alookup_nodup d.computed (hnames ▸ hnd) j hj'
+  rw [Option.some.inj h1] at this
+  rw [cv]; exact this
+
+/-! ## 3. chaining to any depth -/
+
+/-- `evalAll` is characterised by: one result per request, carrying the request's name, whose value
+is `evalRequest` applied to the results of the EARLIER requests.  By induction on the position, every
+request therefore equals its definition (section 1) applied to the values of its sources, to any
+depth of chaining. -/
+theorem chain (m : Model α) (d : RunData α) (reqs : List (ReqEntry α)) (all : List (String × List α)) :
+    evalAll m d reqs = some all ↔
+      all.length = reqs.length ∧
+        ∀ k (h : k < reqs.length) (h' : k < all.length),
+          all[k].1 = reqs[k].name ∧ evalRequest m d (all.take k) reqs[k].req = some all[k].2 :=
+  evalAll_iff m d reqs all
+
+/-- With pairwise distinct request names (they are dict keys in the code), looking up the name of the
+`j`-th request among the results available to a later request `k` finds the `j`-th value. -/
+theorem chain_lookup (m : Model α) (d : RunData α) (reqs : List (ReqEntry α)) (all : List (String × List α))
+    (h : evalAll m d reqs = some all) (hnd : DistinctNames reqs) (j k : Nat) (hjk : j < k)
+    (hj : j < reqs.length) (hj' : j < all.length) :
+    alookup (all.take k) reqs[j].name = some all[j].2 :=
+  evalAll_lookup m d reqs all h hnd j k hjk hj hj'
+
+/-- A name that does not belong to an earlier request is not found (so a request cannot see itself
+or a later request). -/
+theorem chain_lookup_none (m : Model α) (d : RunData α) (reqs : List (ReqEntry α))
+    (all : List (String × List α)) (h : evalAll m d reqs = some all) (k : Nat) (name : String)
+    (hn : name ∉ (reqs.take k).map (·.name)) : alookup (all.take k) name = none :=
+  evalAll_lookup_none m d reqs all h k name hn
+
+/-- all results have one entry per model time -/
+theorem chain_lengths (m : Model α) (d : RunData α) (hd : RunData.WF d) (reqs : List (ReqEntry α))
+    (all : List (String × List α)) (h : evalAll m d reqs = some all) :
+    ∀ kv ∈ all, kv.2.length = d.times.length :=
+  evalAll_lengths m d hd reqs all h
+
+/-! ## 4. what is returned -/
+
+/-- Without a whitelist, `derivedOutputs` returns exactly the requests with `save = true`, in request
+order, with the values `evalAll` computed for them (request names pairwise distinct); it is undefined
+iff `evalAll` is. -/
+theorem saved_only (m : Model α) (d : RunData α) (hw : m.whitelist = []) (hnd : DistinctNames m.requests) :
+    derivedOutputs m d =
+      (evalAll m d m.requests).map (fun all => ((m.requests.zip all).filter (fun p => p.1.save)).map (·.2)) := by
+  cases h : evalAll m d m.requests with
+  | none => simp [derivedOutputs, hw, h]
+  | some all => rw [derivedOutputs_saved m d hw hnd all h]; rfl
+
+/-- Without the distinctness hypothesis: the results whose name is the name of a saved request (if two
+requests could share a name — impossible for dict keys — an unsaved one would be returned along with
+its saved namesake, see the example at the end). -/
+theorem saved_only_general (m : Model α) (d : RunData α) (hw : m.whitelist = []) :
+    derivedOutputs m d =
+      (evalAll m d m.requests).map (fun all =>
+        all.filter (fun kv => decide (∃ r ∈ m.requests, r.name = kv.1 ∧ r.save = true))) := by
+  cases h : evalAll m d m.requests with
+  | none => simp [derivedOutputs, hw, h]
+  | some all =>
+    simp only [derivedOutputs, hw, List.length_nil, beq_self_eq_true, if_true, h, Option.bind_eq_bind,
+      Option.bind_some, pure, Option.map_some, Option.some.injEq]
+    apply List.filter_congr
+    intro kv _
+    rw [Bool.eq_iff_iff, decide_eq_true_iff, List.any_eq_true]
+    simp only [Bool.and_eq_true, beq_iff_eq]
+
+/-! ## non-vacuity: an age-stratified S/I model, three times, eleven chained requests, on `Rat` -/
+
+section example_
+def young : Strata := [("age", "young")]
+def old : Strata := [("age", "old")]
+def cSy : Comp := ⟨"S", young⟩
+def cSo : Comp := ⟨"S", old⟩
+def cIy : Comp := ⟨"I", young⟩
+def cIo : Comp := ⟨"I", old⟩
+
+def exModel : Model Rat :=
+  { t0 := 0, t1 := 2, dt := 1, nTimes := 3,
+    comps := [cSy, cSo, cIy, cIo], origNames := ["S", "I"], infectious := ["I"],
+    flows := [
+      { kind := .transition, name := "infection", src := some cSy, dst := some cIy, param := .const (1/2), adjs := [] },
+      { kind := .transition, name := "infection", src := some cSo, dst := some cIo, param := .const (1/4), adjs := [] },
+      { kind := .death, name := "death", src := some cIy, dst := none, param := .const (1/10), adjs := [] },
+      { kind := .importF, name := "imports", src := none, dst := some cSy, param := .time, adjs := [] } ],
+    strats := [], mixingCats := [[]], mixingMats := [], strains := ["default"],
+    initDist := none, arrayPop := none, actions := [],
+    requests := [
+      ⟨"S", .comp ["S"] [], true⟩,
+      ⟨"young", .comp ["S", "I"] young, false⟩,
+      ⟨"inf_raw", .flow "infection" [] [] true, true⟩,
+      ⟨"inf_young", .flow "infection" young [] false, true⟩,
+      ⟨"into_young", .flow "imports" [] young true, false⟩,
+      ⟨"total", .agg ["S", "inf_raw"], false⟩,
+      ⟨"cum_inf", .cum "inf_raw" none, true⟩,
+      ⟨"cum_total", .cum "total" (some 1), true⟩,
+      ⟨"ratio", .func (.div (.comp 0) (.add (.comp 1) (.param "k"))) ["cum_inf", "S"], true⟩,
+      ⟨"pop", .cv "tot", false⟩,
+      ⟨"deep", .agg ["ratio", "cum_total", "pop"], true⟩ ],
+    computed := [("tot", .popSum), ("ty", .mul .time (.comp 2))], whitelist := [],
+    finalized := true }
+
+def exBackend : Backend :=
+  { nComps := 4, nFlows := 4, populationIdx := [0, 1, 2, 0], nonPopIdx := [3], crudeIdx := [], replIdx := [],
+    deathIdx := [2], infFlowIdx := [], posMap := [(0, 2), (1, 3), (3, 0)], negMap := [(0, 0), (1, 1), (2, 2)],
+    catIdx := [[0, 1, 2, 3]], categoryLookup := [0, 0, 0, 0], strainInfIdx := [[2, 3]],
+    strainCatIdx := [[[0, 1]]], infStrainLookup := [], infCatLookup := [], procType := none }
+
+def exTimes : List Rat := [0, 1, 2]
+/-- an arbitrary trajectory (one negative entry, which `step` cleans to zero) -/
+def exOutputs : List (List Rat) := [[90, 50, 10, 5], [80, 45, 18, -9], [70, 40, 25, 12]]
+def exParams : List (String × Rat) := [("k", 10)]
+def exFlows : List (List Rat) := [[45, 25/2, 1, 0], [40, 45/4, 9/5, 1], [35, 10, 5/2, 2]]
+def exCvs : List (String × List Rat) := [("tot", [155, 143, 147]), ("ty", [0, 18, 50])]
+def exData : RunData Rat := ⟨exTimes, exOutputs, exFlows, exCvs, exParams⟩
+def exAll : List (String × List Rat) :=
+  [("S", [140, 125, 110]), ("young", [100, 98, 95]), ("inf_raw", [115/2, 205/4, 45]),
+   ("inf_young", [45, 85/2, 75/2]), ("into_young", [0, 1, 2]), ("total", [395/2, 705/4, 155]),
+   ("cum_inf", [115/2, 435/4, 615/4]), ("cum_total", [0, 705/4, 1325/4]),
+   ("ratio", [23/60, 29/36, 41/32]), ("pop", [155, 143, 147]), ("deep", [9323/60, 5761/18, 15345/32])]
+
+example : prepare exModel = .ok exBackend := by rfl
+
+/-- `flow_rows`: the hypothesis holds, and the rows are the right-hand side at `(outputs[i], times[i])` -/
+example : flowsForOutputs exModel exBackend exParams exTimes exOutputs = some (exFlows, exCvs) := by
+  decide +kernel
+example : (exTimes.zip exOutputs).map (fun ty => (step exModel exBackend exParams ty.1 ty.2).map (·.flowRates)) =
+    exFlows.map some := by decide +kernel
+example : (exTimes.zip exOutputs).map (fun ty => Expr.eval ⟨exParams, ty.1, cleanV ty.2⟩ (.mul .time (.comp 2))) =
+    [some 0, some 18, some 50] := by decide +kernel
+
+example : RunData.WF exData := ⟨rfl, rfl, by decide⟩
+
+/-- `comp`: two of the four compartments are selected by name list + strata filter -/
+example : evalRequest exModel exData [] (.comp ["S", "I"] young) = some [100, 98, 95] ∧
+    exOutputs.map (compOutputAt exModel ["S", "I"] young) = [100, 98, 95] := by decide +kernel
+/-- `flow_raw`: both "infection" flows without filter, only the young one with a source filter, the
+sourceless import flow passes any source filter -/
+example : evalRequest exModel exData [] (.flow "infection" [] [] true) = some [115/2, 205/4, 45] ∧
+    exFlows.map (flowOutputAt exModel "infection" [] []) = [115/2, 205/4, 45] ∧
+    exFlows.map (flowOutputAt exModel "infection" young []) = [45, 40, 35] ∧
+    exFlows.map (flowOutputAt exModel "imports" old young) = [0, 1, 2] ∧
+    exFlows.map (flowOutputAt exModel "imports" old old) = [0, 0, 0] := by decide +kernel
+/-- `flow_midpoint` -/
+example : evalRequest exModel exData [] (.flow "infection" young [] false) = some [45, 85/2, 75/2] ∧
+    (List.range 3).map (midpointAt [45, 40, 35]) = [45, 85/2, (75/2 : Rat)] := by decide +kernel
+/-- `agg`: the sources are found, and have one entry per time -/
+example : SourcesAre exAll ["S", "inf_raw"] [[140, 125, 110], [115/2, 205/4, 45]] :=
+  (sourcesAre_iff _ _ _).1 (by decide +kernel)
+example : evalRequest exModel exData exAll (.agg ["S", "inf_raw"]) = some [395/2, 705/4, 155] ∧
+    (List.range 3).map (aggAt [[140, 125, 110], [115/2, 205/4, (45 : Rat)]]) = [395/2, 705/4, 155] := by
+  decide +kernel
+/-- `cum`, `cum_start` (start time `1` is the time of index `1`), `cum_clamped` (start `5 > 2`),
+`cum_not_time` (start `1/2`) -/
+example : exData.times.Pairwise (· < ·) := by decide +kernel
+example : exData.times[1] = 1 ∧ exData.times.getLast? = some 2 ∧ (1/2 : Rat) ∉ exData.times := by decide +kernel
+example : alookup exAll "total" = some [395/2, 705/4, 155] := by decide +kernel
+example : evalRequest exModel exData exAll (.cum "inf_raw" none) = some [115/2, 435/4, 615/4] ∧
+    evalRequest exModel exData exAll (.cum "total" (some 1)) = some [0, 705/4, 1325/4] ∧
+    (List.range 3).map (cumAt [395/2, 705/4, (155 : Rat)] 1) = [0, 705/4, 1325/4] ∧
+    evalRequest exModel exData exAll (.cum "total" (some 5)) = some [0, 0, 155] ∧
+    evalRequest exModel exData exAll (.cum "total" (some (1/2))) = none := by decide +kernel
+/-- `func`: `cum_inf / (S + k)` pointwise; undefined when the parameter is missing -/
+example : evalRequest exModel exData exAll (.func (.div (.comp 0) (.add (.comp 1) (.param "k"))) ["cum_inf", "S"])
+      = some [23/60, 29/36, 41/32] ∧
+    (List.range 3).map (fun i => Expr.eval (funcEnv exData [[115/2, 435/4, 615/4], [140, 125, 110]] i)
+      (.div (.comp 0) (.add (.comp 1) (.param "k")))) = [some (23/60), some (29/36), some (41/32)] ∧
+    evalRequest exModel { exData with params := [] } exAll
+      (.func (.div (.comp 0) (.add (.comp 1) (.param "k"))) ["cum_inf", "S"]) = none := by decide +kernel
+/-- `cv` -/
+example : evalRequest exModel exData [] (.cv "tot") = some [155, 143, 147] := by decide +kernel
+/-- `chain`, `chain_lookup`, `saved_only`: eleven requests, chained three deep
+(`deep ← cum_total ← total ← inf_raw`) -/
+example : evalAll exModel exData exModel.requests = some exAll := by decide +kernel
+example : DistinctNames exModel.requests := by decide +kernel
+example : exModel.whitelist = [] := rfl
+example : derivedOutputs exModel exData = some
+    [("S", [140, 125, 110]), ("inf_raw", [115/2, 205/4, 45]), ("inf_young", [45, 85/2, 75/2]),
+     ("cum_inf", [115/2, 435/4, 615/4]), ("cum_total", [0, 705/4, 1325/4]),
+     ("ratio", [23/60, 29/36, 41/32]), ("deep", [9323/60, 5761/18, 15345/32])] := by decide +kernel
+
+/-- why `saved_only` assumes distinct names: with a duplicated name the unsaved duplicate is returned too -/
+example : derivedOutputs { exModel with requests := [⟨"a", .comp ["S"] [], true⟩, ⟨"a", .comp ["I"] [], false⟩] } exData
+    = some [("a", [140, 125, 110]), ("a", [15, 9, 37])] := by decide +kernel
+/-- `flow_raw_run`, `cv_run` -/
+example : flowsForOutputs exModel exBackend exParams exData.times exData.outputs = some (exData.flows, exData.computed) := by
+  decide +kernel
+example : (exModel.computed.map (·.1)).Nodup := by decide
+end example_
+
+#print axioms comp
+#print axioms flow_raw
+#print axioms flow_midpoint
+#print axioms agg
+#print axioms cum
+#print axioms cum_start
+#print axioms cum_clamped
+#print axioms cum_clamped_values
+#print axioms cum_not_time
+#print axioms func
+#print axioms cv
+#print axioms series_length
+#print axioms flow_rows
+#print axioms flow_rows_defined
+#print axioms flow_raw_run
+#print axioms cv_run
+#print axioms chain
+#print axioms chain_lookup
+#print axioms chain_lookup_none
+#print axioms chain_lengths
+#print axioms saved_only
+#print axioms saved_only_general
+
+end Summer.C08
